@@ -577,6 +577,27 @@ func (g *gen) choice(depth int, inList bool) *Node {
 	return ch
 }
 
+// deepChoice nests choices levels deep: every case holds a leaf and, in one
+// case per level, the next choice (switching the innermost case must clear
+// nothing above it; switching an outer case must clear everything below).
+func (g *gen) deepChoice(levels int) *Node {
+	g.n++
+	ch := &Node{Kind: Choice, Name: g.name("ch")}
+	nc := g.r.Range(2, 3)
+	inner := g.r.Intn(nc)
+	for i := 0; i < nc; i++ {
+		cs := &Node{Kind: Case, Name: g.name("cs")}
+		l := g.leaf(false, false)
+		l.Default = ""
+		cs.Children = append(cs.Children, l)
+		if i == inner && levels > 1 {
+			cs.Children = append(cs.Children, g.deepChoice(levels-1))
+		}
+		ch.Children = append(ch.Children, cs)
+	}
+	return ch
+}
+
 // DataParentIs reports whether x lies in the case subtree cs without an
 // intervening container or list (only meaningful before Link()).
 func (x *Node) DataParentIs(cs *Node) bool {
@@ -653,6 +674,9 @@ func Generate(r *kit.Rng, caps Caps, name string, mustChoice, mustList bool) *No
 			c.Children = append(c.Children, g.leaf(false, false), g.choice(1, false))
 			if g.r.Chance(1, 2) {
 				c.Children = append(c.Children, g.choice(1, false))
+			}
+			if g.r.Chance(1, 3) {
+				c.Children = append(c.Children, g.deepChoice(g.r.Range(3, 4)))
 			}
 			m.Children = append(m.Children, c)
 			if g.r.Chance(1, 2) {
